@@ -458,6 +458,26 @@ def cycle_long_history(run, funcs, pid, steps=1500):
         if ln != len(ref) or (seq and exp and set(seq) != set(exp)):
             run.suspect.append('%s SimpleCycle after %d calls (%d of them init): cycle is %r, reference %r' % (pid, step, n_init, seq, exp))
             break
+    # targeted: a plane that was on the cycle exactly 256 (512) resets ago and has not been touched since must not look as if it were on the
+    # current cycle (per-plane generation stamps of 8 bits would wrap around exactly here)
+    for period in (256, 512):
+        o = interp.exec_fn(st, init, [Ref(('H', 1)), 6, 7, 8], {})
+        st = o[0][0]
+        for k in range(period - 1):
+            a = k % 4
+            o = interp.exec_fn(st, init, [Ref(('H', 1)), a, a + 1, a + 2], {})
+            st = o[0][0]
+        o = interp.exec_fn(st, init, [Ref(('H', 1)), 0, 1, 2], {})
+        st = o[0][0]
+        n_init += period + 1
+        # triangle (6, 1, 0): 6 is new, edge 0 -> 1 is on the cycle: must be accepted and give 0 -> 6 -> 1 -> 2
+        o = interp.exec_fn(st, ext, [Ref(('H', 1)), 6, 1, 0], {})
+        st, res = o[0]
+        ln, seq, st = observe(st)
+        if res.name != 'Ok' or ln != 4 or set(seq) != {0, 1, 2, 6}:
+            run.suspect.append('%s SimpleCycle after %d resets: a plane that was on the cycle %d resets ago is treated as if it were on the current one '
+                               '(try_extend(6,1,0) on the fresh cycle 0->1->2 returns %s, cycle %r)' % (pid, n_init, period, res.name, seq))
+            break
     run.add_functions(interp, funcs)
     mine = [s for s in run.suspect if 'SimpleCycle after' in s]
     run.obligations.append({'name': '%s SimpleCycle long history: %d init / try_extend calls (%d inits) on one cycle executed through the MIR agree call by call with an independent successor-map model'
